@@ -458,7 +458,7 @@ func evalCheck(c *lib.Ctx, in Input, asCase bool) {
 		}
 	}
 	if asCase {
-		c.Case(lib.App("CCheck", coqExp(in.Exp), coqTs(in.Graph), coqT(t), coqResult(o, t)), in, jsKey(in), crossPkg)
+		c.Case(old(lib.App("CCheck", coqExp(in.Exp), coqTs(in.Graph), coqT(t), coqResult(o, t))), in, jsKey(in), crossPkg)
 	} else {
 		c.Eval(in, jsKey(in), crossPkg)
 	}
@@ -516,7 +516,7 @@ func evalPair(c *lib.Ctx, in Input, asCase bool) {
 	in.Out = fmt.Sprint(got)
 	nontrivial := in.Lab.Pkg != in.Dep.Label.Pkg || in.Lab.Sub != in.Dep.Label.Sub
 	if asCase {
-		c.Case(lib.App("CCanSee", coqExp(in.Exp), coqL(*in.Lab), coqT(*in.Dep), lib.Bool(got)), in, jsKey(in), nontrivial)
+		c.Case(old(lib.App("CCanSee", coqExp(in.Exp), coqL(*in.Lab), coqT(*in.Dep), lib.Bool(got))), in, jsKey(in), nontrivial)
 	} else {
 		c.Eval(in, jsKey(in), nontrivial)
 	}
@@ -530,24 +530,35 @@ func evalPair(c *lib.Ctx, in Input, asCase bool) {
 	}
 }
 
+func old(c string) string { return lib.App("COld", c) }
+
 func main() {
 	cli.InitLogging(cli.MinVerbosity - 1) // CRITICAL only: CanSee logs every experimental refusal at ERROR level
 	lib.Main("C33", func(c *lib.Ctx) {
-		c.Model("From PlzV Require Import Model.C33.", "C33.case", "C33.check")
+		c.Model("From PlzV Require Import Model.C33 Model.C33_E2E.", "C33_E2E.case", "C33_E2E.check")
 		c.Rule("seeded random graphs of 3-6 targets over a package pool with shared textual prefixes (p, pf, pfoo, p/q, p/qq, p/q/r, experimental, experimentalx, exp, ...), " +
 			"hidden children (_x#tag, _x#tag_b, __x#t, _#t), subrepos (\"\", s, t), 0-3 visibility patterns aimed at or just beside the depending label " +
 			"(same dir, parent dir, textual non-directory prefix, sibling with a suffix, PUBLIC; :all, /..., own name, owner name), test/test_only flags and " +
 			"experimental-dir configurations (none, experimental, exp, p, p/q, the repo root); one target with 1-4 declared dependencies goes through the real " +
 			"CheckDependencyVisibility; independent (label, dependency) pairs go through BuildLabel.CanSee; pattern/label pairs through Includes and names through Parent. " +
-			"distinct = distinct inputs; non-trivial = target and some dependency lie in different packages")
+			"end to end (real plz build on generated repositories of 2-4 packages in a chain, 1-3 genrule/gentest targets each, subinclude of CONFIG-touching and plain build_defs files and " +
+			"package(default_visibility/default_testonly) in random order at the top of a package, visibility lists of 0-4 entries with PUBLIC at a random position): histories of 2-4 builds of one label from a shared " +
+			"plz-out between which ONLY the declaration of a dependency changes (visibility tightened / emptied / dropped / made public, test_only set / cleared, package() removed, restored), PUBLIC-position repositories, " +
+			"shared-subinclude / package-default repositories. distinct = distinct inputs; non-trivial = target and some dependency lie in different packages (e2e: more than one step, a closure of more than two targets or an illegal edge)")
 
-		var rin Input
+		var rin struct {
+			Input
+			Stream string  `json:"stream"`
+			Steps  []EStep `json:"steps"`
+		}
 		if c.ReadReplay(&rin) {
 			switch rin.Kind {
+			case "e2e":
+				replayE2E(c, E2EInput{Kind: "e2e", Stream: rin.Stream, Steps: rin.Steps})
 			case "check":
-				evalCheck(c, rin, true)
+				evalCheck(c, rin.Input, true)
 			case "cansee":
-				evalPair(c, rin, true)
+				evalPair(c, rin.Input, true)
 			}
 			return
 		}
@@ -573,7 +584,7 @@ func main() {
 			l := L{Sub: "s", Pkg: "p/q", Name: n}
 			p := l.core().Parent()
 			got := L{Sub: p.Subrepo, Pkg: p.PackageName, Name: p.Name}
-			c.Case(lib.App("CParent", coqL(l), coqL(got)), map[string]any{"kind": "parent", "label": l, "observed": got}, "parent "+n, strings.Contains(n, "#"))
+			c.Case(old(lib.App("CParent", coqL(l), coqL(got))), map[string]any{"kind": "parent", "label": l, "observed": got}, "parent "+n, strings.Contains(n, "#"))
 			c.Oracle()
 			if got.Name != ownerName(n) || got.Pkg != l.Pkg || got.Sub != l.Sub {
 				c.Fail("parent-differs-from-owner", fmt.Sprintf("Parent(%q) = %q, the owning target by the tag() convention is %q", n, got.Name, ownerName(n)),
@@ -588,7 +599,7 @@ func main() {
 			got := v.core().Includes(l.core())
 			in := map[string]any{"kind": "includes", "pattern": v, "label": l, "observed": got}
 			if i < nInc {
-				c.Case(lib.App("CIncludes", coqL(v), coqL(l), lib.Bool(got)), in, "inc "+jsKey(in), v.Pkg != l.Pkg)
+				c.Case(old(lib.App("CIncludes", coqL(v), coqL(l), lib.Bool(got))), in, "inc "+jsKey(in), v.Pkg != l.Pkg)
 			} else {
 				c.Eval(in, "inc "+jsKey(in), v.Pkg != l.Pkg)
 			}
@@ -597,6 +608,8 @@ func main() {
 				c.Fail("includes-differs-from-documented-pattern", fmt.Sprintf("%s.Includes(%s) = %v, the documented pattern semantics (repository aside) say %v", v, l, got, want), in)
 			}
 		}
+		// --- 4. end to end through the real plz binary: histories, PUBLIC positions, per-package defaults
+		runE2EStreams(c)
 		keys := make([]string, 0, len(states))
 		for k := range states {
 			keys = append(keys, k)
